@@ -91,6 +91,7 @@ func runC02(c *Ctx) {
 	c02SpendsRecorded(c, ge)
 	// the spent set is per MidState: both transaction versions of a block must go through the same one
 	c09TxnByTxn(c, ge)
+	c02StalePointers(c)
 	c02LeafFlags(c, ge)
 }
 
